@@ -18,6 +18,8 @@ def run(ctx):
     # 2. histories chosen by TLC, and seeded-random ones over a larger universe, on the real ocimem
     vh = vlib.build_harness(ctx)
     scen = rc.gen_scenarios(ctx, 40 if quick else 1500)
+    # one blob in two repositories: push / mount / re-push under another media type / delete / read
+    scen += rc.gen_scenarios(ctx, 60 if quick else 1500, depth=10, cfg='OciRegistryGenBlobs.cfg')
     # transition coverage: one history per (state, operation) pair of the model-checked universe
     scen += rc.cover_scenarios(ctx, 'OciRegistryCover_all.cfg', sample=1200 if quick else 60000)
     scen += rc.cover_scenarios(ctx, 'OciRegistryCover_up.cfg', sample=500 if quick else None, probe=UP_PROBE)
